@@ -885,12 +885,16 @@ func ExtractOTSDBPayload(rawJson []byte, tags *TagsHolder) ([]byte, float64, uin
 		case bytes.Equal(key, otsdb_mname), bytes.Equal(key, metric_name_key):
 			switch valueType {
 			case jp.String:
-				_, err := jp.ParseString(value)
+				name, err := jp.ParseString(value)
 				if err != nil {
 					log.Errorf("ExtractOTSDBPayload: failed to parse %v as string, err=%v", value, err)
 					return err
 				}
 				mName = value
+				if len(name) != len(value) {
+					// the name was written with JSON escapes
+					mName = []byte(name)
+				}
 			default:
 				return utils.TeeErrorf("ExtractOTSDBPayload: invalid type %v for metric name %v", valueType, value)
 			}
@@ -1027,12 +1031,16 @@ func ExtractOTLPPayload(rawJson []byte, tags *TagsHolder) ([]byte, float64, uint
 		case bytes.Equal(key, otsdb_mname):
 			switch valueType {
 			case jp.String:
-				_, err := jp.ParseString(value)
+				name, err := jp.ParseString(value)
 				if err != nil {
 					log.Errorf("ExtractOTLPPayload: failed to parse %v as string, err=%v", value, err)
 					return err
 				}
 				mName = value
+				if len(name) != len(value) {
+					// the name was written with JSON escapes
+					mName = []byte(name)
+				}
 			default:
 				return utils.TeeErrorf("ExtractOTLPPayload: invalid type %v for metric name %v", valueType, value)
 			}
